@@ -46,10 +46,12 @@ ASSUMPTIONS = [
     "here); GPU/TPU collectives are not exercised",
     "'identical' is read as: final E/H equal to 1e-11 (f64) / 1e-5 (f32) relative to max|field| (observed: bit-equal or 1-3 ulp, "
     "the max difference is reported in the evidence), detector records equal to 1e-9 (f64) / 5e-5 (f32) relative to "
-    "max|record| because reductions over a sharded axis are summed in a different order; for reduced records of "
-    "signed samples the scale is that of the summands (volume means of Field/Phasor: max|final field|; Poynting sums: "
-    "max|record| times the cancellation factor sum|S_i| / |sum S_i| measured on an unreduced twin detector), otherwise "
-    "a mean that cancels to 1e-23 would be compared with itself",
+    "max|record| because reductions over a sharded axis are summed in a different order; round-off differences (1-3 "
+    "ulp of max|F|, made where the field is large) travel with the wave, so Field/Phasor records use scale = "
+    "max(max|record|, rho*max|F| over the whole domain and all steps) with rho = 1e-3 (f64) / 1 (f32), Energy/Poynting "
+    "records are compared only where the local field reaches 1e-3 (f64) / 0.2 (f32) of max|F|, and reduced Poynting "
+    "sums are scaled by their cancellation factor sum|S_i|/|sum S_i| from an unreduced twin detector (otherwise a "
+    "mean that cancels to 1e-23 would be compared with itself)",
     "a child that does not see the requested device count is a harness error, never a violation",
 ]
 
@@ -306,14 +308,23 @@ def _server(n, lane):
 
 
 TWIN = "__full"
+ALL = "__all"
 
 
-def _with_twins(scene):
-    """Every reduced Poynting detector gets an unreduced twin (same region, switch, interpolation): the twin's
-    per-cell values give the size of the summands, i.e. the scale against which a re-ordered sum may differ."""
+def _with_aux(scene):
+    """Auxiliary detectors, the same in all three children:
+
+    * `__all`: raw E,H of the whole domain at every step — compared like the final fields (identical history) and used
+      as the scale of round-off: a 1-3 ulp difference made where the field is large travels with the wave, so the
+      noise floor of a record taken in a quiet corner is eps*max|F| in absolute terms, not relative to the record.
+    * an unreduced twin of every reduced Poynting detector: its per-cell values give the cancellation factor
+      sum|S_i| / |sum S_i| of the reduced sum."""
     import copy
 
     sc = copy.deepcopy(scene)
+    sc["detectors"].append({"type": "field", "name": ALL, "exact": False, "switch": {}, "lo": [0, 0, 0],
+                            "hi": list(scene["shape"]), "reduce": False,
+                            "components": ["Ex", "Ey", "Ez", "Hx", "Hy", "Hz"]})
     for d in scene["detectors"]:
         if d["type"] == "poynting" and d.get("reduce"):
             t = copy.deepcopy(d)
@@ -338,7 +349,7 @@ def _run_children(case, lane, persistent):
     has more than one child alive (a child holds 0.5-1 GB)."""
     d = _scratch()
     fp = engine.fingerprint(case)
-    scene = _with_twins(case["scene"])
+    scene = _with_aux(case["scene"])
     jobs = []
     for n in DEVICE_COUNTS:
         spec = os.path.join(d, f"{fp}-{n}.json")
@@ -435,6 +446,9 @@ def body(ctx, case):
     ftol = ctx.tol(1e-11, 1e-5)
     dtol = ctx.tol(1e-9, 5e-5)
     by_name = {d["name"]: d for d in scene["detectors"]}
+    # quiet-region floors as fractions of max|F| over the whole domain and all steps (see _with_aux)
+    rho_lin = ctx.tol(1e-3, 1.0)
+    rho_quad = ctx.tol(1e-3, 0.2)
     for n in DEVICE_COUNTS[1:]:
         got = res[n][1]
         ctx.check(set(got) == set(ref), f"{n}-device run returns different records", observed=sorted(got), expected=sorted(ref))
@@ -446,29 +460,41 @@ def body(ctx, case):
             err = ctx.close(got[nm], ref[nm], scale=big, tol=ftol, msg=f"final {nm} on {n} devices differs from 1 device",
                             metric=f"{nm}_diff_{n}dev")
             ctx.classify(f"{nm}-bit-equal" if err == 0.0 else f"{nm}-roundoff-differs")
-        fmax = {"E": max(_amax(ref["E"]), 1e-300), "H": max(_amax(ref["H"]), 1e-300)}
+        allref = ref[f"det::{ALL}::fields"]
+        fmax = max(_amax(allref), 1e-300)
+        err = ctx.close(got[f"det::{ALL}::fields"], allref, scale=fmax, tol=ftol,
+                        msg=f"field history (all cells, all steps) on {n} devices differs from 1 device",
+                        metric=f"history_diff_{n}dev")
+        ctx.classify("history-bit-equal" if err == 0.0 else "history-roundoff-differs")
         for k in ref:
             if not k.startswith("det::"):
                 continue
             name = k.split("::")[1]
-            big = max(_amax(ref[k]), _amax(got[k]))
             d = by_name.get(name)
-            if d is not None and d.get("reduce") and d["type"] in ("field", "phasor"):
-                # a volume mean of signed samples may cancel to round-off: the summands are of the size of the fields
-                comps = d.get("components", ("Ex", "Hx"))
-                big = max(big, max(fmax[c[0]] for c in comps))
-            elif d is not None and d.get("reduce") and d["type"] == "poynting":
-                tw = ref[f"det::{name}{TWIN}::poynting_flux"].astype(np.float64)
-                tw = tw.reshape(tw.shape[0], -1) if not d.get("keep_all") else tw.reshape(tw.shape[0], 3, -1)
-                a, b = _amax(np.abs(tw).sum(axis=-1)), _amax(tw.sum(axis=-1))
-                if b == 0.0:
-                    ctx.classify("poynting-sum-fully-cancelled")
+            if d is None:  # auxiliary detectors
+                continue
+            big = max(_amax(ref[k]), _amax(got[k]))
+            if d["type"] in ("field", "phasor"):
+                c = 2.0 if d["type"] == "phasor" else 1.0
+                big = max(big, c * rho_lin * fmax)
+            else:
+                region = (slice(None), slice(None), *(slice(max(lo - 1, 0), hi + 1) for lo, hi in zip(d["lo"], d["hi"])))
+                if _amax(allref[region]) < rho_quad * fmax:
+                    ctx.classify("quadratic-in-quiet-region-not-checked")
                     continue
-                kappa = a / b * (8.0 if scene["grid"]["kind"] == "rect" else 1.0)  # rect: face areas vary <= 2.56/0.36
-                ctx.metric("poynting_cancellation_factor", kappa)
-                big = big * max(1.0, kappa)
+                if d["type"] == "poynting" and d.get("reduce"):
+                    tw = ref[f"det::{name}{TWIN}::poynting_flux"].astype(np.float64)
+                    tw = tw.reshape(tw.shape[0], 3, -1) if d.get("keep_all") else tw.reshape(tw.shape[0], -1)
+                    a, b = _amax(np.abs(tw).sum(axis=-1)), _amax(tw.sum(axis=-1))
+                    if b == 0.0:
+                        ctx.classify("poynting-sum-fully-cancelled")
+                        continue
+                    kappa = a / b * (8.0 if scene["grid"]["kind"] == "rect" else 1.0)  # rect: face areas vary < 8x
+                    ctx.metric("poynting_cancellation_factor", kappa)
+                    big = big * max(1.0, kappa)
             if big == 0.0:
                 continue
+            ctx.classify("record-compared:" + d["type"] + ("/reduced" if d.get("reduce") else ""))
             ctx.close(got[k], ref[k], scale=big, tol=dtol, msg=f"detector record {k[5:]} on {n} devices differs from 1 device",
                       metric=f"det_diff_{n}dev")
 
